@@ -310,8 +310,13 @@ theorem classify_U (hφ : Dist φ) (st : OrSt) (x : Expr) (hx : memberOK x = tru
     U E K d φ (orClassify st x) ↔ (U E K d φ st ∨ φ (solveG E K d x)) := by
   unfold orClassify
   split
+  · -- a nested all()-list: kept as it is
+    simp only [U, Ex_append, Ex_single]
+    constructor
+    · rintro (h | h | h | (h | h) | h) <;> simp [h]
+    · rintro ((h | h | h | h | h) | h) <;> simp [h]
   · -- nested
-    rename_i f b
+    rename_i f b _
     simp only [U]
     rw [UNest_insert]
     constructor
@@ -649,7 +654,16 @@ theorem orS_step (L : List Expr) (st : OrSt) (x : Expr) (hx : memberOK x = true)
   have last : x ∈ L ++ [x] := by simp
   unfold orClassify
   split
-  · rename_i f b
+  · refine ⟨h.any, ?_, h.needles, h.patterns, h.nestedNe,
+      fun q hq m hm => up _ (h.nested q hq m hm), ?_⟩
+    · intro y hy
+      rcases List.mem_append.mp hy with hy | hy
+      · exact up y (h.rest y hy)
+      · simp at hy; subst hy; exact last
+    · intro h1 h2 h3
+      have := h.count h1 h2 h3
+      simp only [List.length_append, List.length_singleton]; omega
+  · rename_i f b _
     refine ⟨h.any, fun y hy => up y (h.rest y hy), h.needles, h.patterns, ?_, ?_, ?_⟩
     · exact groupInsert_vals_ne strCmp f [b] (by simp) _ h.nestedNe
     · rw [groupInsert_all strCmp strCmp_eq f [b] st.nested (fun k m => Expr.nested k m ∈ L ++ [Expr.nested f b])]
@@ -857,7 +871,7 @@ theorem shake1_match (fuel : Nat) (k : MatchK) (x : Expr) :
 def notNested (x : Expr) : Bool := match x with | .nested _ _ => false | _ => true
 
 def andNestedFold (shaken : List Expr) : List (Str × List Expr) :=
-  shaken.foldl (fun acc x => match x with | .nested f b => groupInsert strCmp f [b] acc | _ => acc) []
+  shaken.foldl andNestedStep []
 
 def buildAndNested (fuel : Nat) (q : Str × List Expr) : Expr :=
   match q with
@@ -880,17 +894,19 @@ theorem andFold_none (L : List Expr) (h : ∀ x ∈ L, notNested x = true) :
     andNestedFold L = [] ∧ L.filter notNested = L := by
   constructor
   · unfold andNestedFold
-    have : ∀ acc, L.foldl (fun acc x => match x with
-        | .nested f b => groupInsert strCmp f [b] acc | _ => acc) acc = acc := by
+    have : ∀ acc, L.foldl andNestedStep acc = acc := by
       induction L with
       | nil => intro acc; rfl
       | cons x xs ih =>
         intro acc
         simp only [List.foldl_cons]
         have hx := h x (by simp)
-        cases x with
-        | nested f b => simp [notNested] at hx
-        | _ => exact ih (fun y hy => h y (by simp [hy])) acc
+        have hstep : andNestedStep acc x = acc := by
+          cases x with
+          | nested f b => simp [notNested] at hx
+          | _ => rfl
+        rw [hstep]
+        exact ih (fun y hy => h y (by simp [hy])) acc
     exact this []
   · exact List.filter_eq_self.mpr h
 
